@@ -28,6 +28,7 @@
 #include <simgrid/plugins/live_migration.h>
 #include <simgrid/s4u.hpp>
 #include <simgrid/s4u/VirtualMachine.hpp>
+#include <xbt/config.hpp>
 #include <cstdio>
 #include <iostream>
 #include <map>
@@ -57,6 +58,10 @@ static std::vector<sg4::ActivityPtr> maestro_acts;
 static long executed_ops = 0;
 static const long BUDGET = 800;
 static int nprof         = 0;
+// TRACE_host_state_*() have no "tracing disabled" safe switch (unlike the rest of the tracing API, they dereference the
+// root container unconditionally): the harness only calls them when tracing is on, so that the same scenario can be run
+// without tracing as a baseline.
+static bool tracing_on = false;
 
 static double now() { return sg4::Engine::get_clock(); }
 static double D(const std::string& s) { return std::stod(s); }
@@ -285,6 +290,8 @@ static void body(int k)
           simgrid::instr::sub_vm_variable(t[2], t[3], D(t[4]));
       } else if (n == "mark") { // mark <type> <value>
         simgrid::instr::mark(t[1], t[2]);
+      } else if ((n == "hpush" || n == "hpop" || n == "hsetst") && not tracing_on) {
+        continue;
       } else if (n == "hpush") { // hpush <host> <state> <value>
         TRACE_host_push_state(t[1].c_str(), t[2].c_str(), t[3].c_str());
         mypush.emplace_back(t[1], t[2]);
@@ -429,7 +436,8 @@ int main(int argc, char** argv)
       decls.push_back(t);
     }
   }
-  auto col = [](const std::string& c) { return c == "-" ? std::string("") : c + " 0.3 0.7"; };
+  tracing_on = simgrid::config::get_value<bool>("tracing");
+  auto col   = [](const std::string& c) { return c == "-" ? std::string("") : c + " 0.3 0.7"; };
   for (auto const& t : decls) {
     if (t[0] == "vmplugin")
       sg_vm_live_migration_plugin_init();
@@ -445,6 +453,8 @@ int main(int argc, char** argv)
       simgrid::instr::declare_mark(t[1]);
     else if (t[0] == "markv")
       simgrid::instr::declare_mark_value(t[1], t[2], t[3] == "-" ? "1 1 1" : t[3] + " 0.1 0.9");
+    else if ((t[0] == "hst" || t[0] == "hsv") && not tracing_on)
+      continue;
     else if (t[0] == "hst")
       TRACE_host_state_declare(t[1].c_str());
     else if (t[0] == "hsv")
